@@ -1,1 +1,32 @@
-fn main(){}
+//! Same driver as vcheck, built with harness feature `tls` (tonic/tls-ring) for C15 only.
+use vh::infra::runner::*;
+
+fn main() {
+    let args: Vec<String> = std::env::args().collect();
+    if args.len() < 3 || args[2] != "C15" {
+        eprintln!("usage: vcheck_tls run|replay C15 [quick|thorough|<replay file>]");
+        std::process::exit(2);
+    }
+    let mode = args[1].as_str();
+    let third = args.get(3).map(|s| s.as_str());
+    let tier = match (mode, third, std::env::var("VERIF_TIER").ok().as_deref()) {
+        ("run", Some("thorough"), _) => Tier::Thorough,
+        ("run", Some("quick"), _) => Tier::Quick,
+        (_, _, Some("thorough")) => Tier::Thorough,
+        _ => Tier::Quick,
+    };
+    let seed: u64 = std::env::var("VERIF_SEED").ok().and_then(|s| s.parse::<i64>().ok()).map(|v| v as u64).unwrap_or(0);
+    install_panic_hook();
+    vh::infra::watchdog::start("C15", tier);
+    type P = vh::props::c15::C15;
+    let code = match mode {
+        "run" => {
+            let r = run_prop::<P>(tier, seed);
+            write_evidence::<P>(tier, seed, &r);
+            report::<P>(tier, seed, &r)
+        }
+        "replay" => replay::<P>(third.expect("replay needs a path")),
+        _ => 2,
+    };
+    std::process::exit(code);
+}
